@@ -8,13 +8,16 @@ from .common import public_functions, construct, fsite, vtable_instances, handle
 from .c07 import schedule_direction, PE, reached_walkers
 from .c11 import loops_bounded_by_rounds
 from ..initflow import lf_add, lf_const, lf_str
+from .routing_rules import helpers, table_str, compose_canon, identity_canon
 
 TITLE = ("Decides four structural necessary conditions of 'decrypt inverts encrypt' (the algebraic inverse itself is a value "
          "fact and is not decided): (R1) functions are classified by how they walk the key schedule (forward from entry 0 / "
          "backward from rounds-1), every *_encrypt entry point and vtable slot 0 reaches only forward walkers, every "
          "*_decrypt entry point and slot 1 only backward walkers, including the never-executed scalar tails; (R2) a backward "
          "walk starts at schedule[rounds-1] and a forward walk at schedule[0], both visit exactly `rounds` entries of the "
-         "same object's rounds field that bounded the writer; (R5) every site that XORs the reflection constant into k1 (key setup, mode switch, cipher core, per unit) applies the same eight constant bytes; (R4) mantis_swap_modes writes only k0, k0prime and k1 (tweak "
+         "same object's rounds field that bounded the writer; (R3) by bit-granular copy propagation (bits are moved, never combined) every "
+         "helper pair X / X_inverse (tweak permutation h, cell permutation P, scalar and vector copies) composes to the identity "
+         "routing; (R5) every site that XORs the reflection constant into k1 (key setup, mode switch, cipher core, per unit) applies the same eight constant bytes; (R4) mantis_swap_modes writes only k0, k0prime and k1 (tweak "
          "and rounds are outside its may-write set) and the parallel wrapper reaches it with the context pointer unchanged.")
 
 
@@ -157,6 +160,25 @@ def run_config(ctx, rep, cfg):
             else:
                 rep.violation("C03.R5", construct(f), f.loc(site), "the reflection constant applied to k1 here is %s but %s elsewhere in this unit: key setup / mode switch and the cipher core disagree, so a decrypt-keyed or switched schedule is not the inverse" %
                               (["%02x" % b if b is not None else "--" for b in m], "".join("%02x" % b if b is not None else "--" for b in ref)), cfg=cn)
+    # ---- R3: inverse helper pairs compose to the identity routing, in every copy
+    H = helpers(prog)
+    npairs = 0
+    for fk, h in sorted(H.items()):
+        inv = (fk[0], fk[1] + "_inverse")
+        if inv not in H:
+            continue
+        npairs += 1
+        f = h["f"]
+        hi = H[inv]
+        inst = "%s+inverse" % construct(f)
+        if h["table"] is None or hi["table"] is None:
+            bad = h if h["table"] is None else hi
+            rep.violation("C03.R3", inst, fsite(bad["f"]), "%s is not a pure bit permutation any more (two data bits are combined or bits are dropped): it cannot be the inverse of its partner" % bad["f"].name, cfg=cn)
+        elif identity_canon(compose_canon(hi, h), h["rowbits"]) and identity_canon(compose_canon(h, hi), h["rowbits"]):
+            rep.ok("C03.R3", inst, fsite(f), "%s o %s = identity on all %d bits (routing %s)" % (hi["f"].name, f.name, len(h["table"]), table_str(h)), cfg=cn)
+        else:
+            rep.violation("C03.R3", inst, fsite(hi["f"]), "%s does not undo %s: routing %s composed with %s is not the identity, so the reflected rounds / mode switch do not invert" %
+                          (hi["f"].name, f.name, table_str(h), table_str(hi)), cfg=cn)
     nwalk = 0
     # ---- R1: classification of every block-processing function
     want = {}
@@ -254,18 +276,19 @@ def run_config(ctx, rep, cfg):
             rep.violation("C03.R4", cons, fsite(f), "mode switch writes only %s (k0, k0prime and k1 must all change)" % sorted(written), cfg=cn)
         else:
             rep.ok("C03.R4", cons, fsite(f), "writes exactly k0, k0prime, k1; tweak and rounds are outside MayWrite", cfg=cn)
-    return nwalk, nstart, nsw, len(maps)
+    return nwalk, nstart, nsw, len(maps), npairs
 
 
 def run(ctx, rep):
     rep.assume("not decided: that the inverse round functions, inverse S-boxes and the alpha/k0' algebra are the inverses of the forward ones (value facts)",
                "direction trait: cursor over `schedule` starting at a constant element and stepping up = forward; starting at an index and stepping down = backward")
     for cfg in ctx.configs():
-        nwalk, nstart, nsw, nmaps = run_config(ctx, rep, cfg)
+        nwalk, nstart, nsw, nmaps, npairs = run_config(ctx, rep, cfg)
         if cfg is None:
             rep.floor("C03.R1", "direction-constrained walkers reached", nwalk, 18)
             rep.floor("C03.R2", "schedule walks", nstart, 13)
             rep.floor("C03.R4", "mode-switch functions", nsw, 2)
             rep.floor("C03.R5", "sites applying the reflection constant to k1", nmaps, 4)
+            rep.floor("C03.R3", "inverse helper pairs", npairs, 4)
         else:
             ctx.release(cfg)
